@@ -619,6 +619,11 @@ func (c *fileCtx) renderFunc(it *Item) {
 }
 
 func (c *fileCtx) renderSet(s *Set) {
+	if s.AliasOf > 0 {
+		t := c.p.Sets[s.AliasOf-1]
+		c.pf("var %s = %s%s\n\n", s.Name, c.q(t.Pkg), t.Name)
+		return
+	}
 	var ms []string
 	for _, m := range s.Members {
 		ms = append(ms, c.refExpr(m))
